@@ -120,6 +120,12 @@ def spec_on_impl(o, alpha):
     if o["stuck"] or not o["closed"]:
         return ("hang", "the receiver does not end: the error channel is not closed although the context was "
                         "cancelled (or the socket reported closed)")
+    if o.get("never_drain") and not o.get("gone"):
+        return ("cancel-does-not-end-blocked-receiver",
+                "error burst of %d steps with nobody receiving from the error channel, context cancelled once the receiver "
+                "sat in the report of error %d: %d ms later the receiver goroutine is still there (it only ended once the "
+                "harness took an error; %d errors delivered): cancellation must end reading" % (
+                    len(o["script"]), len(o["errs"]), o.get("gone_ms", 0), len(o["errs"])))
     played, reads, cancel = o["played"], o["reads"], o["cancel"]
     prefix = played[:reads]
     exp_frames = [i for i, c in enumerate(prefix) if c < 128]
@@ -228,7 +234,8 @@ def report(ctx, alpha, o, key, why):
     path = ctx.write_replay(tag, {
         "property": "C20", "what": why,
         "input": {"class": o["class"], "script": o["script"], "drained": o["drained"], "cancel_req": o["cancel_req"],
-                  "async_us": o["async_us"], "closed_src_at": o.get("closed_src_at", 0)},
+                  "async_us": o["async_us"], "closed_src_at": o.get("closed_src_at", 0),
+                  "never_drain": o.get("never_drain", False)},
         "readable": describe(alpha, o),
         "observed": {k: o[k] for k in ("played", "cancel", "frames", "errs", "reads", "closed", "stuck")},
         "replay_cmd": "bin/check C20 --replay <this file>"})
@@ -273,11 +280,11 @@ def minimise(ctx, alpha, o, key, deadline):
     return cur
 
 
-def run_one(ctx, inp):
+def run_one(ctx, inp, extra=()):
     p = os.path.join(ctx.work, "one-in.json")
     with open(p, "w") as f:
         json.dump(inp, f)
-    ok, _ = ctx.harness_run("c20", ["-out", "one.jsonl", "-replay", p], timeout=120)
+    ok, _ = ctx.harness_run("c20", ["-out", "one.jsonl", "-replay", p] + list(extra), timeout=120)
     if not ok:
         ctx.broken.pop()
         return None
@@ -298,6 +305,24 @@ def judge(ctx, alpha, rows, limit=3):
     bad.sort(key=lambda t: t[0])
     for _, r, o in bad:
         if r[0] in seen or len(seen) >= limit:
+            continue
+        if r[0] == "cancel-does-not-end-blocked-receiver":
+            # a wall-clock judgement: repeated twice (one case at a time, three times the waiting time) before it is believed
+            import time as _t
+            ok_again = False
+            for attempt in range(2):
+                _t.sleep(1.0)
+                again = run_one(ctx, {k: o[k] for k in ("class", "script", "drained", "cancel_req", "async_us", "never_drain")},
+                                extra=["-goneWait", 9000])
+                if again is not None and not spec_on_impl(again, alpha):
+                    ok_again = True
+                    break
+            if ok_again:
+                ctx.info.append("a blocked receiver that had not ended 3 s after the cancellation did end when the case was "
+                                "repeated: attributed to the load of the machine")
+                continue
+            seen.add(r[0])
+            report(ctx, alpha, o, r[0], r[1] + " (repeated: failed 3 times out of 3)")
             continue
         if r[0] == "hang":
             # a watchdog finding is re-run once before it is believed
